@@ -170,6 +170,17 @@ def run(rep):
                     'recursive_components': [sorted(c) for c in sccs]}
     n_sites = 0
     n_arena = 0
+    # callee-side guard: a function of the component whose every recursive call is dominated by a visited-set guard keyed by its own
+    # handle parameter ("visit this node unless seen") makes calls *to it* that hand over the followed handle safe
+    self_guarded = {}
+    for comp in sccs:
+        cs = set(comp)
+        for fn in comp:
+            body = mir.bodies[fn]
+            hparams = [p for p in range(1, body.arg_count + 1) if is_handle_ty(body.locals[p])]
+            sites = [(bb, t) for bb, t in body.calls() if (t['callee'] or t['raw']) in cs]
+            if hparams and sites and all(guard_of(body, bb, {(p, '') for p in hparams}, sites)[0] for bb, t in sites):
+                self_guarded[fn] = hparams
     for comp in sccs:
         cs = set(comp)
         for fn in sorted(comp):
@@ -217,7 +228,13 @@ def run(rep):
                     if bb in body.reachable_from(succs):
                         single = False
                         break
-                if guarded:
+                callee_guard = callee in self_guarded and any(
+                    op_place(t['args'][p - 1]) is not None and (canon(body, op_place(t['args'][p - 1])) in key_roots or is_handle_ty(body.locals[op_local(t['args'][p - 1])]))
+                    for p in self_guarded[callee] if p - 1 < len(t['args']))
+                if callee_guard and not guarded:
+                    rep.ok('C20.guarded-recursion', key, where,
+                           f'arena-following call hands the handle to {callee}, which visits it only behind its own visited-set guard (callee-side guard)')
+                elif guarded:
                     rep.ok('C20.guarded-recursion', key, where,
                            f"arena-following recursive call dominated by visited-set branch at bb{desc['block']} "
                            f"({desc['call']}, set from parameter, key {desc['key']})")
